@@ -272,6 +272,30 @@ Theorem C08_escaped_text_to_rows_any_script :
     forall r : row, ssem r [] (qast fs ws) = qsem r (qtree fs ws).
 Proof. exact QuoteTextU.to_postgres_on_escaped_value_u. Qed.
 
+(* ... and handed to ToParameterizedPostgres: a placeholder in the text and w, verbatim, as the only parameter *)
+Theorem C08_escaped_text_to_parameter_any_script :
+  forall (o : oracle) (o2 : oracle2) (cl : Lex.classes),
+  Lex.is_letter cl 34%N = false /\ Lex.is_digit cl 34%N = false ->
+  Lex.is_letter cl 58%N = false /\ Lex.is_digit cl 58%N = false ->
+  Lex.is_letter cl 92%N = false /\ Lex.is_digit cl 92%N = false ->
+  (forall r, Lex.is_space r = true -> Lex.is_alnum cl r = false) ->
+  Lex.is_alnum cl Lex.rune_error = false ->
+  forall (c0 : ascii) (f : list ascii) (d0 : ascii) (w : list ascii),
+  forallb (LexField.wordc cl) (c0 :: f) = true -> Lex.word_type (c0 :: f) = TLiteral ->
+  Lex.word_type (LexEscapeU.esc cl (d0 :: w)) = TLiteral ->
+  forallb (fun c => negb (Ascii.eqb c "\"%char)) (d0 :: w) = true ->
+  let fs := string_of_list_ascii (c0 :: f) in let ws := string_of_list_ascii (d0 :: w) in
+  let es := string_of_list_ascii (LexEscapeU.esc cl (d0 :: w)) in
+  contains_char "*"%char ws = false -> contains_char "?"%char ws = false ->
+  atoi es = None -> match parse_float o es with Some x => is_nan_or_inf o x = true | None => True end ->
+  parse_literal o {| typ := TLiteral; val := fs |} = lit (VStr fs) ->
+  name_ok fs = true -> col_ok o2 fs = true -> valid_utf8 o2 "?" = true ->
+  exists s : string,
+    Api.to_param_postgres o o2 cl "" (QuoteTextU.escaped_text_u cl (c0 :: f) (d0 :: w)) = Ret (s, [VStr ws], None) /\
+    PgModel.pg_read (number_placeholders (PgModel.str s)) = Some (past fs) /\
+    forall r : row, ssem r [RStr ws] (past fs) = qsem r (qtree fs ws).
+Proof. exact QuoteTextU.to_param_postgres_on_escaped_value_u. Qed.
+
 (* the premises are met by a text with two-byte letters, an invalid byte, brackets, blanks and a colon:  caf<C3 A9> (<FF>) <C3 AF>:x
    under a classifier that calls every rune from U+0080 on except U+FFFD a letter; its escaped spelling is computed *)
 Example c08_any_script_premises_are_met :
@@ -310,3 +334,4 @@ Print Assumptions C08_escaped_spelling_any_script_loses_only_its_backslashes.
 Print Assumptions C08_escaped_spelling_any_script_adds_no_wildcard.
 Print Assumptions C08_escaped_spelling_any_script_is_the_ascii_one_on_ascii.
 Print Assumptions C08_escaped_text_to_rows_any_script.
+Print Assumptions C08_escaped_text_to_parameter_any_script.
